@@ -620,6 +620,12 @@ func ruleP10Accessors(p *Prog, r *Report) {
 				if isNilConst(in) {
 					continue
 				}
+				// an empty slice with reserved capacity is as empty as nil
+				if mk, isMk := in.(*ssa.MakeSlice); isMk {
+					if k, isK := constInt(mk.Len); isK && k == 0 {
+						continue
+					}
+				}
 				c, isC := in.(*ssa.Call)
 				if !isC {
 					ok = false
